@@ -148,7 +148,7 @@ func genOp(t *rapid.T, i int, hosts bool) Op {
 		o.Hint = rapid.SampledFrom([]string{"", "", "access_token", "refresh_token", "junk"}).Draw(t, label+"hint")
 		o.Spoof = rapid.IntRange(0, 2).Draw(t, label+"spoof") == 0
 	case "end_session":
-		o.ES = rapid.SampledFrom([]string{"hint", "hint", "hint+client", "clientonly"}).Draw(t, label+"es")
+		o.ES = rapid.SampledFrom([]string{"hint", "hint", "hint+client", "clientonly", "exphint", "exphint", "exphint+client"}).Draw(t, label+"es")
 	case "exchange":
 		o.Caller = rapid.SampledFrom([]string{"ca", "ca", "ca", "cb", "cb", "ck", "owner"}).Draw(t, label+"caller")
 		o.Cred = rapid.SampledFrom([]string{"right", "right", "right", "right", "right", "right", "wrong", "idonly"}).Draw(t, label+"cred")
@@ -995,6 +995,17 @@ func (e *env) endSession(o Op) {
 	case "hint+client":
 		q.Set("id_token_hint", g.idToken)
 		q.Set("client_id", g.client)
+	case "exphint", "exphint+client":
+		// the session's id token as it looks an hour after its expiry: same claims, iat / exp / auth_time in the past,
+		// validly signed with the provider's key (the library accepts expired hints for logout)
+		hint, ok := e.expiredHint(g.idToken)
+		if !ok {
+			return
+		}
+		q.Set("id_token_hint", hint)
+		if kind == "exphint+client" {
+			q.Set("client_id", g.client)
+		}
 	default:
 		q.Set("client_id", g.client)
 	}
@@ -1011,6 +1022,22 @@ func (e *env) endSession(o Op) {
 			}
 		}
 	}
+}
+
+func (e *env) expiredHint(idToken string) (string, bool) {
+	m, ok := jwtPayload(idToken)
+	if !ok {
+		return "", false
+	}
+	now := time.Now()
+	m["iat"] = now.Add(-2 * time.Hour).Unix()
+	m["auth_time"] = now.Add(-2 * time.Hour).Unix()
+	m["exp"] = now.Add(-time.Hour).Unix()
+	if _, has := m["nbf"]; has {
+		m["nbf"] = now.Add(-2 * time.Hour).Unix()
+	}
+	b, _ := json.Marshal(m)
+	return vkit.MustSignJWT(e.c.Alg, "sig1", vkit.Key(e.signKey), b), true
 }
 
 func (e *env) expire(o Op) {
@@ -1153,7 +1180,11 @@ func (e *env) checkState(o Op) {
 			if dead {
 				state = "unexpectedly-dead"
 			}
-			e.fail("C08:state:"+o.Kind+":"+state, "after %s the %s token %s of %s/%s is %s in storage (model: revoked=%v ended=%v)", o.Kind, t.kind, t.id, t.client, t.subject, state, t.revoked, t.ended)
+			kind := o.Kind
+			if kind == "end_session" {
+				kind += ":" + o.ES
+			}
+			e.fail("C08:state:"+kind+":"+state, "after %s the %s token %s of %s/%s is %s in storage (model: revoked=%v ended=%v)", o.Kind, t.kind, t.id, t.client, t.subject, state, t.revoked, t.ended)
 			// continue from what storage says so that one cause is reported once
 			if dead {
 				t.revoked = true
@@ -1325,7 +1356,7 @@ var prop = vkit.Prop[Case]{
 	ID: "C08",
 	Rule: "cases = provider (router x static/host-derived issuer x RS256/ES256 x AES key x per-client opaque/JWT access tokens x basic/post client x extra audience x extras capabilities x refresh-token ids equal to / different from the token string x (1/10) storage that skips the liveness check of exchange inputs = grey) " +
 		"x history of 4-31 symbolic ops (issue by 5 clients incl. public, private_key_jwt and client_credentials; userinfo header/form; introspect as owner/other/public client with right/wrong/no credentials; " +
-		"revoke with hint none/access_token/refresh_token/junk as owner/foreign/public/unauthenticated; end_session by id_token_hint; expire; token exchange with subject and optional actor) over genuine access and refresh tokens and 23 forging recipes " +
+		"revoke with hint none/access_token/refresh_token/junk as owner/foreign/public/unauthenticated; end_session by fresh or expired-but-validly-signed id_token_hint (with / without client_id) or client_id only; expire; token exchange with subject and optional actor) over genuine access and refresh tokens and 23 forging recipes " +
 		"(CFB bit flips, targeted malleation to a sibling token, re-sealing under the same / another key, unknown id, wrong subject, truncation, extension, JWT clone / untrusted key / no kid / expired / other issuer / alg none / HS256 with public key / signature flip / payload swap, raw garbage, storage faults error/partial); " +
 		"after 3 of 4 histories every token is presented once more at userinfo, introspection and exchange (sweep); oracle = per-token liveness (issued, not revoked, not expired, session not ended) + audience + authenticated caller, string denotation computed with crypto/aes; " +
 		"non-trivial = the history uses a token after its revocation / logout / expiry, or presents a forged string derived from a live token; distinct = router + set of (endpoint, token kind, forging recipe, verdict, reason) of those uses",
